@@ -32,7 +32,8 @@ type c18Case struct {
 	World int           `json:"world,omitempty"` // 0: 2 files / 3 blocks (PAR1: 3 files / 2 volumes); 1 (thorough): 3 files / 7 blocks in 3 recovery files (PAR1: 4 files / 3 volumes), all 6 listing orders
 }
 
-var c18P2Cfgs = []scen.P2Config{{Sizes: []int{11, 6}, Slice: 4, Blocks: 3, Class: "uniq"}, {Sizes: []int{11, 6, 9}, Slice: 4, Blocks: 7, Class: "uniq"}}
+var c18P2Cfgs = []scen.P2Config{{Sizes: []int{11, 6}, Slice: 4, Blocks: 3, Class: "uniq"}, {Sizes: []int{11, 6, 9}, Slice: 4, Blocks: 7, Class: "uniq"},
+	{Sizes: []int{11, 6, 5}, Slice: 4, Blocks: 3, Class: "uniq", Names: []string{"sub/f0", "f1", "sub/deep/f2"}}} // world 2: protected files in sub-directories (any per-directory I/O is a further place to swallow a fault)
 var c18P1Cfgs = []scen.P1Config{{Sizes: []int{7, 5, 0}, Volumes: 2}, {Sizes: []int{7, 0, 3, 8}, Volumes: 3}} // each world protects a zero-length file (a failed read and an empty file both yield no bytes)
 
 type c18World struct {
@@ -273,12 +274,15 @@ func c18Gen(g *core.Gen) {
 		}
 	}
 	states := []string{"intact", "missing", "changed", "shifted", "beyond", "volmissing", "two", "lookalike", "volnamed"}
-	worlds := []int{0}
+	worlds := []int{0, 2}
 	if g.Thorough() {
-		worlds = []int{0, 1}
+		worlds = []int{0, 1, 2}
 	}
 	for _, world := range worlds {
 		for _, f := range []string{"p2", "p1"} {
+			if world == 2 && f == "p1" {
+				continue // PAR1 has no sub-directories
+			}
 			w := c18NewWorld(f, world, g.Seed)
 			for _, op := range []string{"create", "verify", "repair", "repairdc"} {
 				for _, st := range states {
